@@ -238,6 +238,16 @@ def run_check(pid, tier, seed):
     os.makedirs(EVIDENCE, exist_ok=True)
     os.makedirs(REPLAYS, exist_ok=True)
     jobs = conf["jobs"]
+    if conf.get("custom"):
+        import crashdrive
+        try:
+            for (profile, pkg) in sorted({(j.profile, j.pkg) for j in jobs}):
+                build(profile, pkg)
+        except BuildError as e:
+            print(f"INCONCLUSIVE property={pid} reason=build-failed {e}")
+            return 3
+        m, inconclusive_workers, n_tasks = crashdrive.run(pid, tier, seed, conf)
+        return finish(pid, tier, seed, conf, m, inconclusive_workers, n_tasks, t0)
     try:
         for (profile, pkg) in sorted({(j.profile, j.pkg) for j in jobs}):
             build(profile, pkg)
@@ -291,7 +301,11 @@ def run_check(pid, tier, seed):
     m = merge_reports(pid, results)
     m["violations"] += crash_violations
     m["violation_count"] += len(crash_violations)
+    return finish(pid, tier, seed, conf, m, inconclusive_workers, len(tasks), t0)
 
+
+def finish(pid, tier, seed, conf, m, inconclusive_workers, n_workers_total, t0):
+    jobs = conf["jobs"]
     known = load_known()
     new_violations = []
     known_hits = {}
@@ -314,8 +328,7 @@ def run_check(pid, tier, seed):
     for cname, mins in gates.get("counters", {}).items():
         if m["counters"].get(cname, 0) < mins[t]:
             gate_failures.append(f"counter {cname}={m['counters'].get(cname, 0)} < {mins[t]}")
-    n_workers_total = len(tasks)
-    if len(inconclusive_workers) * 4 > n_workers_total:
+    if len(inconclusive_workers) * 4 > max(1, n_workers_total):
         gate_failures.append(f"{len(inconclusive_workers)} of {n_workers_total} workers inconclusive")
 
     wall = time.time() - t0
@@ -380,6 +393,15 @@ def replay(pid, path):
     v = d["violation"]
     jd = v["_job"]
     conf = PROPS[pid]
+    if conf.get("custom"):
+        import crashdrive
+        for j in conf["jobs"]:
+            build(j.profile, j.pkg)
+        if crashdrive.replay(pid, v):
+            print(f"VIOLATION property={pid} replay={path}")
+            return 1
+        print("replay: the recorded violation did not reproduce")
+        return 0
     job = None
     for j in conf["jobs"]:
         if j.name == jd["job"]:
